@@ -399,6 +399,12 @@ pub fn cli(ctx: &Ctx) -> Stats {
         let first = mk(&mut rng, if reuse_input_path { &inp_reused } else if idx % 8 < 4 { &inp_long } else { &inp_short });
         let second = mk(&mut rng, if reuse_input_path { &inp_reused } else if idx % 8 < 4 { &inp_short } else { &inp_long });
         // (same options in both runs of a reuse case: the strongest setting for anything keyed on the input path)
+        let mut first = first;
+        if reuse_input_path && family == 0 && (idx / 20) % 2 == 0 {
+            // every other reuse case of the oligo family takes the normalised (memory-mapped, pre-sized) path
+            first.0.retain(|a| a != "-c");
+        }
+        let first = first;
         let second = if reuse_input_path { first.clone() } else { second };
         let second_fresh = if reuse_input_path { mk_same(&second.0, &inp_reused, if idx % 8 < 4 { &inp_short } else { &inp_long }) } else { second.0.clone() };
         if reuse_input_path {
